@@ -186,6 +186,7 @@ def main(pid, tier, seed, replay):
         "checker_cmd": "coq_makefile -f _CoqProject -o Makefile && make (coqc 8.16.1, full .vo build)"
                        + ("; coqchk -o" if tier == "thorough" else "") + "; Print Assumptions <theorem>",
         "trusted_base": TRUSTED, "theorems": pinfo["theorems"], "proof_problems": problems,
+        "coqchk": pinfo.get("coqchk", "not run in the quick tier"),
         "evaluations": len(recs), "distinct_nontrivial": distinct,
         "rule": "one evaluation = one label sequence (start/connect/send/leave/stop) against a real TCP or "
                 "Unix server with raw and CLI clients; non-trivial = contains a connect and a stop; distinct = "
